@@ -350,6 +350,32 @@ def fam_dupattr(v):
                                                                  'arrangement': DUP_ARR[arr], 'duplicate_propattr': 1}
 
 
+# boundary values of the 8-byte real format: exact powers of 16, normalised and (same value) unnormalised
+R8_MAG = [None, 16, 256, 4096, Fraction(1, 16), Fraction(1, 256), 1, Fraction(1, 2)]
+R8_ANG = [None, 1, 16, 256, Fraction(1, 16), -16]
+R8_SHIFT = [0, 1, 2]
+U16 = [(Fraction(1), Fraction(1)), (Fraction(1, 16), Fraction(1, 16)), (Fraction(1, 16), Fraction(1, 256)), (Fraction(1, 256), Fraction(1, 4096)),
+       (Fraction(16), Fraction(1)), (Fraction(1, 4096), Fraction(1, 65536))]
+
+
+def fam_real8(v):
+    kind, m, a, sh = v[0], R8_MAG[v[1]], R8_ANG[v[2]], R8_SHIFT[v[3]]
+    t = None if (m is None and a is None) else (bool(v[1] & 1), m, a)
+    if kind == 0:
+        el = dict({'kind': 'sref', 'sname': 'KID', 'xy': (10, 20)}, **trans_fields(t))
+    else:
+        el = text_el(None, (None, None), t, b'ab')
+    el['syn'].update(mag_shift=sh, angle_shift=sh)
+    return [kid_cell('KID'), {'name': 'TOP', 'elements': [el]}], {'kind': el['kind'], 'mag': _nm(m), 'angle': _nm(a), 'real8_leading_zero_digits': sh}
+
+
+def fam_units16(v):
+    (u, m), s1, s2, rep = U16[v[0]], R8_SHIFT[v[1]], R8_SHIFT[v[2]], v[3]
+    name, el = rep_elements()[rep]
+    cells = [kid_cell('KID'), {'name': 'TOP', 'elements': [el]}]
+    return cells, {'kind': name, 'units16': '%s/%s' % (u, m), 'units_leading_zero_digits': '%d,%d' % (s1, s2)}, {'units': (u, m), 'units_shift': (s1, s2)}
+
+
 FAMILIES = {
     'header': ([16, 3, 6], fam_header),
     'order': ([24, 2], fam_order),
@@ -363,6 +389,8 @@ FAMILIES = {
     'triples_q': ([len(PAIR_Q)] * 3, lambda v: fam_triples(v, PAIR_Q)),
     'triples_t': ([len(PAIR_T)] * 3, lambda v: fam_triples(v, PAIR_T)),
     'dupattr': ([4, 4, 4, 3], fam_dupattr),
+    'real8': ([2, len(R8_MAG), len(R8_ANG), 3], fam_real8),
+    'units16': ([len(U16), 3, 3, 6], fam_units16),
     'boundary': ([len(BND_SPLITS), 2, 3, 2, 2, 5], fam_boundary),
     'text': ([37, 6, 37, 3, 2], fam_text),
 }
@@ -391,7 +419,7 @@ def make_d1(family, index, ctx):
 def d1_nontrivial(layout, family):
     if family.startswith('pairs') or family.startswith('triples'):
         return True
-    if any(layout.get(k) is not None for k in ('reflibs', 'fonts', 'attrtable', 'generations', 'format')):
+    if any(layout.get(k) is not None for k in ('reflibs', 'fonts', 'attrtable', 'generations', 'format')) or family in ('real8', 'units16'):
         return True
     for c in layout['cells']:
         if c['name'].startswith('KID') or c['name'] == 'LEAF':
@@ -428,6 +456,8 @@ def d1_plan(tier):
         cyc = 'every variant, context (%d UNITS x %d requested units) cycled with the index' % (NU, NR)
         for f in ('header', 'order', 'path_xy1', 'dupattr', 'sref', 'aref', 'box', 'path'):
             plan.append((f, full(f), 'cycle', cyc))
+        plan.append(('real8', full('real8'), 'cycle', 'SREF/TEXT with MAG and ANGLE at exact powers of 16, each normalised and with 1 or 2 leading zero mantissa digits, context cycled'))
+        plan.append(('units16', full('units16'), (0, 5, 10, 15), 'UNITS whose two reals are powers of 16 (6 pairs) x normalised/unnormalised encodings (3x3) x 6 element kinds x 4 requested units'))
         plan.append(('pairs_q', full('pairs_q'), 'cycle', 'every ordered pair of the %d-element reduced alphabet x {same cell, separate cells}, context cycled' % nq))
         plan.append(('triples_q', full('triples_q'), 'cycle', 'every ordered triple of the %d-element reduced alphabet in one cell, context cycled' % nq))
         plan.append(('boundary', range(BND_QUICK * 120), 'cycle', 'every variant with 3-5 vertices (XY split at every subset of positions), context cycled'))
@@ -436,6 +466,8 @@ def d1_plan(tier):
         allc = 'every variant x all %d contexts (%d UNITS x %d requested units)' % (NCTX, NU, NR)
         for f in ('header', 'order', 'path_xy1', 'dupattr', 'sref', 'aref', 'box', 'path'):
             plan.append((f, full(f), 'all', allc))
+        plan.append(('real8', full('real8'), 'all', 'SREF/TEXT with MAG and ANGLE at exact powers of 16, each normalised and with 1 or 2 leading zero mantissa digits, x all %d contexts' % NCTX))
+        plan.append(('units16', full('units16'), (0, 5, 10, 15), 'UNITS whose two reals are powers of 16 (6 pairs) x normalised/unnormalised encodings (3x3) x 6 element kinds x 4 requested units'))
         plan.append(('pairs_t', full('pairs_t'), 'all', 'every ordered pair of the %d-element reduced alphabet x {same cell, separate cells} x all %d contexts' % (nt, NCTX)))
         plan.append(('triples_q', full('triples_q'), 'all', 'every ordered triple of the %d-element reduced alphabet in one cell x all %d contexts' % (nq, NCTX)))
         plan.append(('triples_t', full('triples_t'), TRIPLE_CTX, 'every ordered triple of the %d-element reduced alphabet in one cell x %d contexts' % (nt, len(TRIPLE_CTX))))
